@@ -155,7 +155,9 @@ class BitStringBitReader(BitReader):
         return self._bit_stream_read('bin:{}'.format(nbits))
 
     def read_int(self, nbits):
-        return (-1 if self.read_bool() else 1) * self.read_uint(nbits - 1)
+        # Sign bit followed by the magnitude (which is empty for a field of one bit)
+        sign = -1 if self.read_bool() else 1
+        return sign * self.read_uint(nbits - 1) if nbits > 1 else 0
 
 
 class BitStringBitWriter(BitWriter):
@@ -207,8 +209,11 @@ class BitStringBitWriter(BitWriter):
 
     def write_int(self, value, nbits):
         value = int(value)
+        if nbits == 1 and value != 0:
+            raise ValueError('{} does not fit a signed field of one bit'.format(value))
         self.write_bool(value < 0)
-        self.write_uint(abs(value), nbits - 1)
+        if nbits > 1:
+            self.write_uint(abs(value), nbits - 1)
         return value
 
     def write_bool(self, value):
